@@ -18,6 +18,29 @@ func (g *Gen) genProtoHistory() {
 	if sg.span > 1<<9 {
 		sg.span = 1 << 9 // dense stores put every bin of the window on the wire
 	}
+	if r.Bool(15) {
+		// bins holding BOTH buffered unit entries and a page weight that is not a short dyadic (1/3, 0.0025, a full
+		// mantissa): adding the units one by one and adding their number round differently; only the direct oracle
+		// follows such sums (seeded change C09g)
+		sg.line("K 1 1 pag")
+		for j, n := 0, r.Range(1, 4); j < n; j++ {
+			v := sg.nextValue()
+			w := []float64{1.0 / 3, 0.0025, 2.0 / 3, 0.1, float64(r.U64()>>12) / (1 << 51)}[r.Intn(5)]
+			units := r.Range(2, 5)
+			pos := r.Intn(units + 1)
+			for u := 0; u <= units; u++ {
+				if u == pos {
+					sg.add(1, v, w)
+				}
+				if u < units {
+					sg.add(1, v, 1)
+				}
+			}
+		}
+		sg.line("pbeq 1")
+		g.stats["mixed-unit-and-fractional-bins"]++
+		return
+	}
 	sg.line("K 1 1 %s", sg.storeSpec(allKinds))
 	sg.fillSketch(1, r.Range(0, 40), 55)
 	if r.Bool(20) {
